@@ -3,8 +3,9 @@
     [resample_approx RS even values dt target] = resample_to_approx_dt with scipy.signal.resample as the oracle [RS]).
     Stated at T := R (exact arithmetic) for every record, every dt > 0 and target > 0 and both values of [even].
     The "length" of a record in time is (number of samples) x step. *)
-From Coq Require Import ZArith QArith Reals List Lia Lra.
-From EQ Require Import lib.Num lib.NpList model.M_timestep model.M_timestep_fl proofs.P_C14 proofs.P_C14_fl.
+From Coq Require Import ZArith QArith Qabs Qreals Reals List Lia Lra.
+From EQ Require Import lib.Num lib.NpList lib.B64 model.M_timestep model.M_timestep_fl proofs.P_C14 proofs.P_C14_fl
+  proofs.P_C14_b64.
 Import ListNotations.
 Local Open Scope R_scope.
 
@@ -105,16 +106,57 @@ Theorem C14_rounded_step_le_target : forall (u : R) (rnd : R -> R), 0 <= u <= 1 
   (forall x, Rabs (rnd x - x) <= u * Rabs x) -> (forall x y, x <= y -> rnd x <= rnd y) -> rnd 1 = 1 ->
   forall dt tg, 0 < dt -> 0 < tg -> newdt_rnd rnd dt tg <= tg * (1 + 8 * u).
 Proof. intros u rnd Hu He Hm H1. exact (P_C14_fl.rounded_step_le_target u Hu rnd He Hm H1). Qed.
-(** Full statement wanted: for all finite positive binary64 dt, target whose quotients neither overflow nor underflow,
-      B2R (newdt_b64 dt target) <= B2R target * (1 + 2^-50)
-    (the strict bound <= target is FALSE in binary64: dt = 1, target = 49 returns 49.00000000000001).
-    Proved here: the same bound for round-to-nearest-even with 53 significant bits and unbounded exponent (Flocq's FLX
-    format, [rnd53]); hypotheses of the theorem above are discharged from Flocq's relative-error, monotonicity and
-    representability lemmas.  Missing: the identification of Flocq's executable [b64_div] with [rnd53] on the normal
-    range (Bdiv_correct + FLT/FLX agreement); that link is exercised bit-for-bit by the correspondence instead. *)
+(** The bound for round-to-nearest-even with 53 significant bits and unbounded exponent (Flocq's FLX format, [rnd53]);
+    the hypotheses of the theorem above are discharged from Flocq's relative-error, monotonicity and representability
+    lemmas.  (The strict bound <= target is FALSE in binary64: dt = 1, target = 49 returns 49.00000000000001, see
+    [C14_b64_nonvacuous] below.)  Kept under its historical name; the theorems that follow it close the gap between
+    [rnd53] and the executable kernel, so [C14_b64_step_le_target] is the full statement. *)
 Theorem C14_b64_step_le_target_partial : forall dt tg, 0 < dt -> 0 < tg ->
   newdt_rnd rnd53 dt tg <= tg * (1 + / 1125899906842624).
 Proof. exact P_C14_fl.flx53_step_le_target. Qed.
+
+(** The executable binary64 kernel (lib/B64.v: Flocq's [b64_div mode_NE], [binary_normalize]; model/M_timestep.v:
+    [factor_b64], [newdt_b64] -- the terms the correspondence runs under vm_compute and compares bit for bit with the
+    implementation).  Observables: [fQ x] is the exact rational value of the float x (0 for infinities and NaN, so a
+    positive lower bound on [fQ x] says "x is finite and positive"), [ffinite x] its finiteness flag.
+    One division: away from the subnormal range and from overflow (2^-1022 <= |a/b| <= 2^1023), Flocq's executable
+    division IS [rnd53] of the exact quotient (Bdiv_correct + agreement of FLT and FLX rounding), and is finite. *)
+Theorem C14_b64_div_is_rnd53 : forall a b : b64,
+  (1 # 2 ^ 1022 <= Qabs (fQ a / fQ b) <= inject_Z (2 ^ 1023))%Q ->
+  Q2R (fQ (fdiv a b)) = rnd53 (Q2R (fQ a) / Q2R (fQ b)) /\ ffinite (fdiv a b) = true.
+Proof. exact P_C14_b64.b64_div_is_rnd53_Q. Qed.
+(** The whole chain: for binary64 dt, target with dt, target and dt/target in [2^-1000, 2^1000] (no other hypothesis:
+    no bound on the integers k, m -- the ceiling / floor of a 53-bit number >= 1 is itself a 53-bit number, so the
+    int -> float conversions are exact; every intermediate quotient is shown to stay inside [2^-1002, 2^1002]),
+    the value the kernel returns is the rounded chain of the theorems above, and it is finite. *)
+Theorem C14_b64_chain_is_rnd53 : forall dt tg : b64,
+  (1 # 2 ^ 1000 <= fQ dt <= inject_Z (2 ^ 1000))%Q -> (1 # 2 ^ 1000 <= fQ tg <= inject_Z (2 ^ 1000))%Q ->
+  (1 # 2 ^ 1000 <= fQ dt / fQ tg <= inject_Z (2 ^ 1000))%Q ->
+  Q2R (fQ (newdt_b64 dt tg)) = newdt_rnd rnd53 (Q2R (fQ dt)) (Q2R (fQ tg)) /\ ffinite (newdt_b64 dt tg) = true.
+Proof. exact P_C14_b64.newdt_b64_is_rnd53_Q. Qed.
+(** ... hence the step bound for [newdt_b64] itself (full statement; exact rationals, no reals in the statement) *)
+Theorem C14_b64_step_le_target : forall dt tg : b64,
+  (1 # 2 ^ 1000 <= fQ dt <= inject_Z (2 ^ 1000))%Q -> (1 # 2 ^ 1000 <= fQ tg <= inject_Z (2 ^ 1000))%Q ->
+  (1 # 2 ^ 1000 <= fQ dt / fQ tg <= inject_Z (2 ^ 1000))%Q ->
+  ffinite (newdt_b64 dt tg) = true /\ (fQ (newdt_b64 dt tg) <= fQ tg * (1 + (1 # 2 ^ 50)))%Q.
+Proof. exact P_C14_b64.b64_step_le_target. Qed.
+(** ... and the factor the kernel returns is 1.0, an integer k >= 2 (exactly), or the binary64 reciprocal fl(1/m) of
+    an integer m >= 1 (m exactly representable); k, m are the ceiling / floor taken by the rounded chain, with
+    q = fl(dt/target) *)
+Theorem C14_b64_factor_integer_or_reciprocal : forall dt tg : b64,
+  (1 # 2 ^ 1000 <= fQ dt <= inject_Z (2 ^ 1000))%Q -> (1 # 2 ^ 1000 <= fQ tg <= inject_Z (2 ^ 1000))%Q ->
+  (1 # 2 ^ 1000 <= fQ dt / fQ tg <= inject_Z (2 ^ 1000))%Q ->
+  let q := rnd53 (Q2R (fQ dt) / Q2R (fQ tg)) in
+  ffinite (snd (factor_b64 dt tg)) = true /\
+  Q2R (fQ (snd (factor_b64 dt tg))) = factor_rnd rnd53 (Q2R (fQ dt)) (Q2R (fQ tg)) /\
+  match fst (factor_b64 dt tg) with
+  | FSame => q = 1 /\ (fQ (snd (factor_b64 dt tg)) == 1)%Q
+  | FRef k => 1 < q /\ k = nceil q /\ (2 <= k)%Z /\ (fQ (snd (factor_b64 dt tg)) == inject_Z k)%Q
+  | FDec m => q < 1 /\ m = nfloor (rnd53 (1 / q)) /\ (1 <= m)%Z /\ (fQ (fofZ m) == inject_Z m)%Q /\
+              snd (factor_b64 dt tg) = fdiv fone (fofZ m) /\
+              Q2R (fQ (snd (factor_b64 dt tg))) = rnd53 (1 / IZR m)
+  end.
+Proof. exact P_C14_b64.b64_factor_shape. Qed.
 
 (** the number of samples requested from the oracle is exactly factor * npts whenever that is an integer (always when
     refining or keeping the step; when m divides npts for decimation): the resampled grid then spans exactly the
@@ -134,8 +176,15 @@ Proof. reflexivity. Qed.
       scipy.signal.resample is an oracle here; the clause is measured on implementation outputs on every run (on-grid
       sinusoid sums, enclosures proved by the [interval] tactic) whenever factor * npts is an integer (otherwise no
       periodic resampling onto the grid i * new_dt exists).
-    - binary64 beyond the partial theorem above: the float chain is modelled bit-for-bit (lib/B64.v, [factor_b64]) and
-      the bound is checked with slack 2^-50 on every implementation output. *)
+    - binary64: the scalar chain dt/target -> factor -> new_dt IS now a theorem about the executable kernel
+      ([C14_b64_div_is_rnd53], [C14_b64_chain_is_rnd53], [C14_b64_step_le_target],
+      [C14_b64_factor_integer_or_reciprocal]) for dt, target, dt/target in [2^-1000, 2^1000].  Still NOT proved:
+      (a) the chain outside that range (subnormal / overflowing quotients: there FLT and FLX rounding differ, and
+      np.ceil(inf) raises in the code); (b) the binary64 sample count [npts_b64] / [rs_count_b64] (float product
+      fl(1.0*len), quotient fl(len/m), int(), 2*int(x/2)) and the interpolated VALUES in binary64 (np.interp's own
+      roundings are not modelled: values are compared with the Q model under a tolerance); (c) that the kernel equals
+      the code: that is the correspondence (bit-for-bit on every case), and the bound is also checked with slack
+      2^-50 on every implementation output. *)
 
 (** non-vacuity: dt = 2, target = 3/4 is refined by exactly k = 3 *)
 Example C14_nonvacuous : snd (interp_approx true [1; 3; 2] 2 (3/4)) = 2/3.
@@ -151,6 +200,18 @@ Proof.
   assert (k = 3%Z).
   { assert (IZR 2 < IZR k) by lra. assert (IZR (k - 1) < IZR 3) by lra. apply lt_IZR in H, H0. lia. }
   subst k. reflexivity.
+Qed.
+(** non-vacuity of the binary64 theorems: dt = 1.0, target = 49.0 (bit patterns) satisfy the range hypotheses; the
+    kernel decimates by m = 49 and returns 49.00000000000001 > target (one ulp above: the strict bound is false in
+    binary64, the slack 2^-50 is needed) *)
+Example C14_b64_nonvacuous :
+  let dt := b64_bits 4607182418800017408 in let tg := b64_bits 4632092954238910464 in
+  ((1 # 2 ^ 1000 <= fQ dt <= inject_Z (2 ^ 1000))%Q /\ (1 # 2 ^ 1000 <= fQ tg <= inject_Z (2 ^ 1000))%Q /\
+   (1 # 2 ^ 1000 <= fQ dt / fQ tg <= inject_Z (2 ^ 1000))%Q) /\
+  fst (factor_b64 dt tg) = FDec 49 /\ bits_b64 (newdt_b64 dt tg) = 4632092954238910465%Z /\
+  (fQ tg < fQ (newdt_b64 dt tg))%Q.
+Proof.
+  cbv zeta. repeat split; try (apply Qle_bool_iff; vm_compute; reflexivity); vm_compute; reflexivity.
 Qed.
 (** the executable instance (T := Q) on a small input: refinement by 2 with the clamped tail, and decimation by 2 *)
 Example C14_run_Q :
